@@ -65,6 +65,7 @@ type Opt struct {
 	EnvSet     bool     `json:"envset,omitempty"` // set the variable to EnvVal before defining
 	EnvVal     string   `json:"envval,omitempty"`
 	Valid      []string `json:"valid,omitempty"`
+	ValidSplit bool     `json:"validsplit,omitempty"` // valid values given through two ValidValues modifiers instead of one
 	Suggested  []string `json:"suggested,omitempty"`
 	SuggFn     []string `json:"suggfn,omitempty"` // what the dynamic value-completion function returns
 	Desc       string   `json:"desc,omitempty"`
@@ -619,7 +620,11 @@ func (b *Built) defineOpt(g *getoptions.GetOpt, o *Opt) {
 		fns = append(fns, g.ArgName(o.ArgName))
 	}
 	if len(o.Valid) > 0 {
-		fns = append(fns, g.ValidValues(o.Valid...))
+		if o.ValidSplit && len(o.Valid) >= 2 {
+			fns = append(fns, g.ValidValues(o.Valid[:1]...), g.ValidValues(o.Valid[1:]...))
+		} else {
+			fns = append(fns, g.ValidValues(o.Valid...))
+		}
 	}
 	if len(o.Suggested) > 0 {
 		fns = append(fns, g.SuggestedValues(o.Suggested...))
